@@ -9,27 +9,33 @@
 //!   copy <seed> <k> <n> <how>                   -> the same line; the duplicate is made by <how> = copy | clone |
 //!                                                  clonefrom | cell | byval  (X = an internal consistency check failed)
 //!   shufs <k> raw1..rawk <m> e1..em [<elem>]    -> R e'1..e'm | P        (shuffle, scripted source)
-//!        <elem> = i64 (default) | string | arr5 | u8 | box | sub <a> <b>: the slice holds Strings / [u64; 5] / u8 /
-//!        Box<i64> tagged with the position, or is the middle part of a longer vector (a elements before, b after);
-//!        the line printed is the one the i64 run must print; X = a tag was damaged / padding was touched /
+//!        <elem> = i64 (default) | sub <a> <b> (the slice is the middle part of a longer vector, a elements before,
+//!        b after) | one of the tagged element kinds of `with_elem!` (string, box, u8, arr5, ..., b65, rec80, w16, w128,
+//!        nest100, bigdrop, ...: Strings / boxes / integers of other widths / plain arrays and records of 1..4097 bytes /
+//!        nested arrays / over-aligned records / records with a Drop impl that is counted);
+//!        the line printed is the one the i64 run must print; X = a tag was damaged / the tags are not a rearrangement /
+//!        an element was dropped during the shuffle or not exactly once afterwards / padding was touched /
 //!        the same shuffle of a slice of zero-sized elements panicked
-//!   shufr <n> <k> seed1..seedk                  -> R (n numbers per seed)(shuffle of 0..n, real Rng)
+//!   shufr <n> <k> seed1..seedk [<elem>]         -> R (n numbers per seed)(shuffle of 0..n, real Rng; with <elem> the
+//!        slice holds n tagged elements of that kind and the tags are printed: the same line) | X
 //!   mix <gen> <seed> <k> op1..opk               -> R o1 .. oj   one observation per operation, P ends the line
 //!        <gen> = rng | g53 | gc1 | gsm | g11 | g0c | gmax | gswap | geven (LinearCongruentialGenerator64<A, C> with
 //!        other constants, see mix_dispatch) | const | static | tls (Rng::from_seed in a const / static / thread_local
 //!        Cell initialiser; the seed given must be the compiled-in one)
 //!        op = d:<ty>:<form>:<s>:<e> (next(range) -> value) | f:<sbits>:<ebits> (next(f64 range) -> bits) |
 //!             r (next_raw) | k:<n> (n dropped next_raw, then one printed) | s:<m> (shuffle 0..m -> a,b,c or -) |
+//!             s:<m>:<elem> (the same on m tagged elements of that kind: the same observation, X = see shufs) |
 //!             c:<how> (duplicate as in `copy`; the original's next_raw is printed, the history continues on the duplicate)
 //!   time                                        -> R <seed> r1 r2 r3 | X : Rng::from_time() behaves as
 //!        Rng::from_seed(seed) for a seed between the clock readings (ns since the epoch) taken around the call;
 //!        a second generator made 2 ms later has a later seed
 //! searches (used by extra(), never by a proof):
-//!   orders <n> <nseeds> <seed0>                 -> O <distinct> <chi2*1000> <min> <max>
+//!   orders <n> <nseeds> <seed0> [<elem>]        -> O <distinct> <chi2*1000> <min> <max> | O damaged <seed>
 //!   witness <n> <limit>                         -> W seed per order (lexicographic rank order) | W fail <found>
 //!   period <k> <seed> <n> <maxp>                -> T <smallest p <= maxp with x[i]=x[i+p] for all i, or 0>
 //!   shufbig <n> <seed>                          -> B ok <fixed points> | B diff <index> | B state
 //!        (Rng::shuffle of 0..n against Fisher-Yates written here over next_raw of a second generator)
+//!   elemsize <elem>                             -> E <size_of> <align_of> <needs_drop as 0/1>
 //!   poschi <n> <nseeds> <seed0>                 -> C <chi2*1000> <min> <max>  (element x position counts)
 //!   <form> is one of range incl to toincl full; unused bounds are given as 0.
 use rlib_rand::lcg::LinearCongruentialGenerator64 as Lcg;
@@ -185,6 +191,373 @@ fn copy_of<const A: u64, const C: u64>(g: &Lcg<A, C>, how: &str) -> Option<Lcg<A
     }
 }
 
+/// an element of a shuffled slice that remembers where it started
+trait Elem: Sized {
+    const MAXLEN: usize = usize::MAX;
+    /// the kind counts its drops (begin() resets the counter)
+    const COUNTS: bool = false;
+    fn mk(i: usize) -> Self;
+    /// the start position; None = the element is damaged
+    fn un(&self) -> Option<usize>;
+    fn begin() {}
+    fn drops() -> usize {
+        0
+    }
+}
+
+const GOLD: u64 = 0x9E3779B97F4A7C15;
+fn word(tag: u64, j: usize) -> u64 {
+    (tag ^ 0xABCD).wrapping_mul(GOLD).wrapping_add((j as u64).wrapping_mul(0xD1342543DE82EF95)).rotate_left(j as u32 % 63)
+}
+fn byte(tag: u64, j: usize) -> u8 {
+    (word(tag, j) >> 29) as u8
+}
+
+macro_rules! int_elem {
+    ($($t:ty),*) => {$(
+        impl Elem for $t {
+            const MAXLEN: usize = if std::mem::size_of::<$t>() >= 8 { usize::MAX } else { 1 << (8 * std::mem::size_of::<$t>()) };
+            fn mk(i: usize) -> Self {
+                i as $t
+            }
+            fn un(&self) -> Option<usize> {
+                Some(*self as usize)
+            }
+        }
+    )*};
+}
+int_elem!(u8, u16, u32, usize, u128);
+
+impl Elem for f64 {
+    fn mk(i: usize) -> Self {
+        i as f64 + 0.25
+    }
+    fn un(&self) -> Option<usize> {
+        let i = *self as usize;
+        if i as f64 + 0.25 == *self {
+            Some(i)
+        } else {
+            None
+        }
+    }
+}
+impl Elem for String {
+    fn mk(i: usize) -> Self {
+        format!("element-{}", i)
+    }
+    fn un(&self) -> Option<usize> {
+        self.strip_prefix("element-")?.parse().ok()
+    }
+}
+impl Elem for Box<usize> {
+    fn mk(i: usize) -> Self {
+        Box::new(i)
+    }
+    fn un(&self) -> Option<usize> {
+        Some(**self)
+    }
+}
+impl Elem for Vec<u8> {
+    fn mk(i: usize) -> Self {
+        let mut v = (i as u64).to_le_bytes().to_vec();
+        v.extend((0..i % 5).map(|j| byte(i as u64, j)));
+        v
+    }
+    fn un(&self) -> Option<usize> {
+        let i = u64::from_le_bytes(self.get(..8)?.try_into().ok()?) as usize;
+        if *self == Self::mk(i) {
+            Some(i)
+        } else {
+            None
+        }
+    }
+}
+impl Elem for (u64, String) {
+    fn mk(i: usize) -> Self {
+        (i as u64, format!("second-{}", i))
+    }
+    fn un(&self) -> Option<usize> {
+        if self.1 == format!("second-{}", self.0) {
+            Some(self.0 as usize)
+        } else {
+            None
+        }
+    }
+}
+/// plain byte arrays: the tag in the first 8 bytes, a pattern derived from it in the others (N >= 8)
+impl<const N: usize> Elem for [u8; N] {
+    fn mk(i: usize) -> Self {
+        let mut a = [0u8; N];
+        a[..8].copy_from_slice(&(i as u64).to_le_bytes());
+        for j in 8..N {
+            a[j] = byte(i as u64, j);
+        }
+        a
+    }
+    fn un(&self) -> Option<usize> {
+        let x = u64::from_le_bytes(self[..8].try_into().ok()?);
+        if (8..N).all(|j| self[j] == byte(x, j)) {
+            Some(x as usize)
+        } else {
+            None
+        }
+    }
+}
+impl<const N: usize> Elem for [u64; N] {
+    fn mk(i: usize) -> Self {
+        let mut a = [0u64; N];
+        a[0] = i as u64;
+        for j in 1..N {
+            a[j] = word(i as u64, j);
+        }
+        a
+    }
+    fn un(&self) -> Option<usize> {
+        if (1..N).all(|j| self[j] == word(self[0], j)) {
+            Some(self[0] as usize)
+        } else {
+            None
+        }
+    }
+}
+/// nested arrays
+impl<const N: usize, const M: usize> Elem for [[u32; M]; N] {
+    fn mk(i: usize) -> Self {
+        let mut a = [[0u32; M]; N];
+        for r in 0..N {
+            for c in 0..M {
+                a[r][c] = word(i as u64, r * M + c) as u32;
+            }
+        }
+        a[0][0] = i as u32;
+        a
+    }
+    fn un(&self) -> Option<usize> {
+        let x = self[0][0] as u64;
+        if (0..N * M).skip(1).all(|k| self[k / M][k % M] == word(x, k) as u32) {
+            Some(x as usize)
+        } else {
+            None
+        }
+    }
+}
+impl<const N: usize, const M: usize, const K: usize> Elem for [[[u8; K]; M]; N] {
+    const MAXLEN: usize = 1 << 16;
+    fn mk(i: usize) -> Self {
+        let mut a = [[[0u8; K]; M]; N];
+        for k in 0..N * M * K {
+            a[k / (M * K)][k / K % M][k % K] = byte(i as u64, k);
+        }
+        a[0][0][0] = i as u8;
+        a[N - 1][M - 1][K - 1] = (i >> 8) as u8;
+        a
+    }
+    fn un(&self) -> Option<usize> {
+        let x = self[0][0][0] as u64 | (self[N - 1][M - 1][K - 1] as u64) << 8;
+        if (1..N * M * K - 1).all(|k| self[k / (M * K)][k / K % M][k % K] == byte(x, k)) {
+            Some(x as usize)
+        } else {
+            None
+        }
+    }
+}
+/// a record: fields of different widths around the tag (8 * N + 8 bytes)
+#[derive(Clone, Copy)]
+struct Rec<const N: usize> {
+    head: u8,
+    tag: u32,
+    body: [u64; N],
+    tail: u16,
+}
+impl<const N: usize> Elem for Rec<N> {
+    fn mk(i: usize) -> Self {
+        let mut body = [0u64; N];
+        for j in 0..N {
+            body[j] = word(i as u64, j);
+        }
+        Rec { head: byte(i as u64, 1), tag: i as u32, body, tail: word(i as u64, 2) as u16 }
+    }
+    fn un(&self) -> Option<usize> {
+        let x = self.tag as u64;
+        if self.head == byte(x, 1) && self.tail == word(x, 2) as u16 && (0..N).all(|j| self.body[j] == word(x, j)) {
+            Some(x as usize)
+        } else {
+            None
+        }
+    }
+}
+/// over-aligned records
+#[repr(align(64))]
+struct Al64 {
+    tag: u64,
+    chk: u64,
+}
+#[repr(align(128))]
+struct Al128 {
+    tag: u64,
+    chk: [u64; 9],
+}
+impl Elem for Al64 {
+    fn mk(i: usize) -> Self {
+        Al64 { tag: i as u64, chk: word(i as u64, 3) }
+    }
+    fn un(&self) -> Option<usize> {
+        if self.chk == word(self.tag, 3) && (self as *const Self as usize) % 64 == 0 {
+            Some(self.tag as usize)
+        } else {
+            None
+        }
+    }
+}
+impl Elem for Al128 {
+    fn mk(i: usize) -> Self {
+        let mut chk = [0u64; 9];
+        for j in 0..9 {
+            chk[j] = word(i as u64, j);
+        }
+        Al128 { tag: i as u64, chk }
+    }
+    fn un(&self) -> Option<usize> {
+        if (0..9).all(|j| self.chk[j] == word(self.tag, j)) && (self as *const Self as usize) % 128 == 0 {
+            Some(self.tag as usize)
+        } else {
+            None
+        }
+    }
+}
+thread_local! {
+    static DROPS: Cell<usize> = Cell::new(0);
+}
+/// a record that is not Copy and counts its drops: a shuffle moves elements, it neither drops nor duplicates them
+struct Dropper<const N: usize> {
+    tag: usize,
+    body: [u64; N],
+    name: String,
+}
+impl<const N: usize> Drop for Dropper<N> {
+    fn drop(&mut self) {
+        DROPS.with(|d| d.set(d.get() + 1));
+    }
+}
+impl<const N: usize> Elem for Dropper<N> {
+    const COUNTS: bool = true;
+    fn mk(i: usize) -> Self {
+        let mut body = [0u64; N];
+        for j in 0..N {
+            body[j] = word(i as u64, j);
+        }
+        Dropper { tag: i, body, name: format!("dropper-{}", i) }
+    }
+    fn un(&self) -> Option<usize> {
+        if self.name == format!("dropper-{}", self.tag) && (0..N).all(|j| self.body[j] == word(self.tag as u64, j)) {
+            Some(self.tag)
+        } else {
+            None
+        }
+    }
+    fn begin() {
+        DROPS.with(|d| d.set(0));
+    }
+    fn drops() -> usize {
+        DROPS.with(|d| d.get())
+    }
+}
+
+/// shuffle m tagged elements of kind T with the source g: the tags in their new order.  None = an element is damaged,
+/// the tags are not a rearrangement of 0..m, or an element was dropped during the shuffle / not exactly once afterwards
+fn shuffle_elems<T: Elem, G: Rand>(g: &mut G, m: usize) -> Option<Vec<usize>> {
+    if m > T::MAXLEN {
+        eprintln!("harness: this element kind needs m <= {}", T::MAXLEN);
+        std::process::exit(3)
+    }
+    T::begin();
+    let mut v: Vec<T> = (0..m).map(T::mk).collect();
+    g.shuffle(&mut v);
+    let during = T::drops();
+    let tags: Option<Vec<usize>> = v.iter().map(T::un).collect();
+    let len = v.len();
+    drop(v);
+    if len != m || during != 0 || (T::COUNTS && T::drops() != m) {
+        return None;
+    }
+    let tags = tags?;
+    let mut seen = vec![false; m];
+    for &t in &tags {
+        if t >= m || seen[t] {
+            return None;
+        }
+        seen[t] = true;
+    }
+    Some(tags)
+}
+
+/// $f::<T, _>(args) for the element kind named $elem
+macro_rules! with_elem {
+    ($elem:expr, $f:ident, $($a:expr),*) => {
+        match $elem {
+            "string" => $f::<String, _>($($a),*),
+            "box" => $f::<Box<usize>, _>($($a),*),
+            "vec" => $f::<Vec<u8>, _>($($a),*),
+            "pair" => $f::<(u64, String), _>($($a),*),
+            "u8" => $f::<u8, _>($($a),*),
+            "u16" => $f::<u16, _>($($a),*),
+            "u32" => $f::<u32, _>($($a),*),
+            "usize" => $f::<usize, _>($($a),*),
+            "u128" => $f::<u128, _>($($a),*),
+            "f64" => $f::<f64, _>($($a),*),
+            "arr5" => $f::<[u64; 5], _>($($a),*),
+            "w8" => $f::<[u64; 8], _>($($a),*),
+            "w9" => $f::<[u64; 9], _>($($a),*),
+            "w16" => $f::<[u64; 16], _>($($a),*),
+            "w17" => $f::<[u64; 17], _>($($a),*),
+            "w128" => $f::<[u64; 128], _>($($a),*),
+            "w512" => $f::<[u64; 512], _>($($a),*),
+            "b8" => $f::<[u8; 8], _>($($a),*),
+            "b15" => $f::<[u8; 15], _>($($a),*),
+            "b17" => $f::<[u8; 17], _>($($a),*),
+            "b31" => $f::<[u8; 31], _>($($a),*),
+            "b33" => $f::<[u8; 33], _>($($a),*),
+            "b63" => $f::<[u8; 63], _>($($a),*),
+            "b64" => $f::<[u8; 64], _>($($a),*),
+            "b65" => $f::<[u8; 65], _>($($a),*),
+            "b80" => $f::<[u8; 80], _>($($a),*),
+            "b127" => $f::<[u8; 127], _>($($a),*),
+            "b128" => $f::<[u8; 128], _>($($a),*),
+            "b129" => $f::<[u8; 129], _>($($a),*),
+            "b255" => $f::<[u8; 255], _>($($a),*),
+            "b257" => $f::<[u8; 257], _>($($a),*),
+            "b1024" => $f::<[u8; 1024], _>($($a),*),
+            "b4097" => $f::<[u8; 4097], _>($($a),*),
+            "rec24" => $f::<Rec<2>, _>($($a),*),
+            "rec64" => $f::<Rec<7>, _>($($a),*),
+            "rec72" => $f::<Rec<8>, _>($($a),*),
+            "rec80" => $f::<Rec<9>, _>($($a),*),
+            "rec1024" => $f::<Rec<127>, _>($($a),*),
+            "nest64" => $f::<[[u32; 4]; 4], _>($($a),*),
+            "nest80" => $f::<[[u32; 4]; 5], _>($($a),*),
+            "nest100" => $f::<[[u32; 5]; 5], _>($($a),*),
+            "nest1152" => $f::<[[u32; 16]; 18], _>($($a),*),
+            "nest3x80" => $f::<[[[u8; 4]; 4]; 5], _>($($a),*),
+            "nest3x125" => $f::<[[[u8; 5]; 5]; 5], _>($($a),*),
+            "al64" => $f::<Al64, _>($($a),*),
+            "al128" => $f::<Al128, _>($($a),*),
+            "drop40" => $f::<Dropper<1>, _>($($a),*),
+            "drop64" => $f::<Dropper<4>, _>($($a),*),
+            "bigdrop" => $f::<Dropper<11>, _>($($a),*),
+            "drop1024" => $f::<Dropper<124>, _>($($a),*),
+            other => {
+                eprintln!("harness: unknown element type {}", other);
+                std::process::exit(3)
+            }
+        }
+    };
+}
+
+/// the memory size of an element kind (reported by `elemsize`, so that the plugin's table cannot drift)
+fn size_of_elem<T: Elem, G>(_g: &mut G, _m: usize) -> Option<Vec<usize>> {
+    Some(vec![std::mem::size_of::<T>(), std::mem::align_of::<T>(), std::mem::needs_drop::<T>() as usize])
+}
+
 fn join_list(v: &[usize]) -> String {
     if v.is_empty() {
         "-".to_string()
@@ -216,9 +589,16 @@ fn run_mix<const A: u64, const C: u64>(mut g: Lcg<A, C>, ops: &[&str]) -> String
             }
             "s" => {
                 let m: usize = p(f[1]);
-                let mut v: Vec<usize> = (0..m).collect();
-                g.shuffle(&mut v);
-                join_list(&v)
+                if f.len() > 2 {
+                    match with_elem!(f[2], shuffle_elems, &mut g, m) {
+                        Some(v) => join_list(&v),
+                        None => "X".to_string(),
+                    }
+                } else {
+                    let mut v: Vec<usize> = (0..m).collect();
+                    g.shuffle(&mut v);
+                    join_list(&v)
+                }
             }
             "c" => match copy_of(&g, f[1]) {
                 Some(h) => {
@@ -318,14 +698,6 @@ fn time_once() -> Option<String> {
         return None;
     }
     Some(format!("R {} {} {} {}", sg, rg[0], rg[1], rg[2]))
-}
-
-/// shuffle m tagged elements of type T with the scripted source; the tags in their new order (None: a tag is damaged)
-fn shuffle_tagged<T, Mk: Fn(usize) -> T, Un: Fn(&T) -> Option<usize>>(raws: &[u64], m: usize, mk: Mk, un: Un) -> Option<Vec<usize>> {
-    let mut v: Vec<T> = (0..m).map(mk).collect();
-    let mut src = Scripted { raws: raws.to_vec(), pos: 0 };
-    src.shuffle(&mut v);
-    v.iter().map(un).collect()
 }
 
 fn fmt_opt(v: Option<i128>) -> String {
@@ -460,37 +832,8 @@ fn main() {
                     }
                 }
                 _ => {
-                    let idx = match elem {
-                        "string" => shuffle_tagged(&raws, m, |i| format!("element-{}", i), |s: &String| s.strip_prefix("element-")?.parse().ok()),
-                        "box" => shuffle_tagged(&raws, m, |i| Box::new(i), |b: &Box<usize>| Some(**b)),
-                        "u8" => {
-                            if m > 256 {
-                                eprintln!("harness: u8 elements need m <= 256");
-                                std::process::exit(3)
-                            }
-                            shuffle_tagged(&raws, m, |i| i as u8, |b: &u8| Some(*b as usize))
-                        }
-                        "arr5" => shuffle_tagged(
-                            &raws,
-                            m,
-                            |i| {
-                                let x = i as u64;
-                                [x, !x, x.wrapping_mul(0x9E3779B97F4A7C15), x ^ 0xABCD, x + 1]
-                            },
-                            |a: &[u64; 5]| {
-                                let x = a[0];
-                                if a[1] == !x && a[2] == x.wrapping_mul(0x9E3779B97F4A7C15) && a[3] == x ^ 0xABCD && a[4] == x + 1 {
-                                    Some(x as usize)
-                                } else {
-                                    None
-                                }
-                            },
-                        ),
-                        other => {
-                            eprintln!("harness: unknown element type {}", other);
-                            std::process::exit(3)
-                        }
-                    };
+                    let mut src = Scripted { raws: raws.clone(), pos: 0 };
+                    let idx = with_elem!(elem, shuffle_elems, &mut src, m);
                     match idx {
                         Some(ix) if ix.iter().all(|&i| i < m) => Some(ix.iter().map(|&i| vals[i]).collect()),
                         _ => None,
@@ -557,8 +900,16 @@ fn main() {
             let mut out = vec!["R".to_string()];
             for i in 0..k {
                 let mut g = Rng::from_seed(p(t[3 + i]));
-                let mut v: Vec<usize> = (0..n).collect();
-                g.shuffle(&mut v);
+                let v: Vec<usize> = if t.len() > 3 + k {
+                    match with_elem!(t[3 + k], shuffle_elems, &mut g, n) {
+                        Some(v) => v,
+                        None => return "X".to_string(),
+                    }
+                } else {
+                    let mut v: Vec<usize> = (0..n).collect();
+                    g.shuffle(&mut v);
+                    v
+                };
                 out.extend(v.iter().map(|x| x.to_string()));
             }
             out.join(" ")
@@ -571,8 +922,16 @@ fn main() {
             let mut cnt = vec![0u64; f];
             for i in 0..nseeds {
                 let mut g = Rng::from_seed(seed0.wrapping_add(i));
-                let mut v: Vec<usize> = (0..n).collect();
-                g.shuffle(&mut v);
+                let v: Vec<usize> = if t.len() > 4 {
+                    match with_elem!(t[4], shuffle_elems, &mut g, n) {
+                        Some(v) => v,
+                        None => return format!("O damaged {}", seed0.wrapping_add(i)),
+                    }
+                } else {
+                    let mut v: Vec<usize> = (0..n).collect();
+                    g.shuffle(&mut v);
+                    v
+                };
                 cnt[perm_rank(&v)] += 1;
             }
             let distinct = cnt.iter().filter(|&&c| c > 0).count();
@@ -612,6 +971,10 @@ fn main() {
                 out.extend(w.iter().map(|x| x.unwrap().to_string()));
                 out.join(" ")
             }
+        }
+        "elemsize" => {
+            let v = with_elem!(t[1], size_of_elem, &mut (), 0).unwrap();
+            format!("E {} {} {}", v[0], v[1], v[2])
         }
         "period" => {
             let k: u64 = p(t[1]);
